@@ -374,10 +374,61 @@ func checkC20(w *World) {
 						flow(st.Val, depth+1)
 					}
 				}
+				// an element of a package-level table of type names (array or slice literal)
+				if ia, ok := x.X.(*ssa.IndexAddr); ok {
+					var g *ssa.Global
+					switch b := ia.X.(type) {
+					case *ssa.Global:
+						g = b
+					case *ssa.UnOp:
+						g, _ = b.X.(*ssa.Global)
+					}
+					if g != nil {
+						allInstrs(init, func(in ssa.Instruction) {
+							st, ok := in.(*ssa.Store)
+							if !ok {
+								return
+							}
+							sia, ok := st.Addr.(*ssa.IndexAddr)
+							if !ok {
+								return
+							}
+							base := sia.X
+							if al, isAl := base.(*ssa.Alloc); isAl {
+								// slice literal: the backing array is stored into the global after slicing
+								for _, rr := range referrers(al) {
+									if sl, ok := rr.(*ssa.Slice); ok {
+										for _, r2 := range referrers(sl) {
+											if st2, ok := r2.(*ssa.Store); ok && st2.Addr == ssa.Value(g) {
+												base = g
+											}
+										}
+									}
+								}
+							}
+							if base == ssa.Value(g) {
+								flow(st.Val, depth+1)
+							}
+						})
+					}
+				}
 			case *ssa.ChangeType:
 				flow(x.X, depth+1)
 			case *ssa.Convert:
 				flow(x.X, depth+1)
+			case *ssa.Index:
+				// an element of (a copy of) a package-level array of type names
+				if ld, ok := x.X.(*ssa.UnOp); ok {
+					if g, ok := ld.X.(*ssa.Global); ok {
+						allInstrs(init, func(in ssa.Instruction) {
+							if st, ok := in.(*ssa.Store); ok {
+								if sia, ok := st.Addr.(*ssa.IndexAddr); ok && sia.X == ssa.Value(g) {
+									flow(st.Val, depth+1)
+								}
+							}
+						})
+					}
+				}
 			}
 		}
 		for _, caller := range all {
